@@ -90,11 +90,13 @@ def predicate (S : Spec.SW.Scheme) (s1 s2 : Seq) (tiny : Bool) (f : List (String
       else "pass"
   | _, _, _, _, _, _, _, _, _, _, _ => "fail:unparsable-result"
 
-/-! ### attribution of a failure of the shipped code to a recorded finding
+/-! ### attribution of a failure to a recorded finding
 
-Closed set of classifiers, each a decidable predicate on the input, evaluated on the shipped-code
-model (the driver separately insists that this model reproduces the implementation's result):
+Closed set of classifiers, each a decidable predicate on the input, evaluated on the model of the
+variant the harness detected (the driver separately insists that this model reproduces the
+implementation's result):
 
+border logic as shipped (variant bit 0 unset)
 * `empty-sequence`  — one of the sequences is empty;
 * `border-max`      — some cell of the first row or column of the shipped matrix holds a value
                       greater than the tracked maximum (the running maximum skips the borders);
@@ -102,25 +104,41 @@ model (the driver separately insists that this model reproduces the implementati
                       re-running the trace-back on the same matrices with the repaired stop rule
                       gives a different alignment;
 * `maxa-init`       — `maxa[j]` is initialised with the *extension* penalty because the first row
-                      holds a horizontal gap (`trace[0][j-1] == LEFT`) and there is a second row.
+                      holds a horizontal gap (`trace[0][j-1] == LEFT`) and there is a second row;
 
-A failure is attributed only if, in addition, (a) the model of the shipped code exhibits the very
-same failing clause on this input (the failure is a consequence of the modelled border logic, not
-of something else the implementation does) and (b) the repaired model satisfies the whole predicate
-on the same input (so the border logic is what separates failure from success).  Anything else
-stays an unattributed `fail:<clause>`. -/
-def attributeFailure (a : Aligner) (S : Spec.SW.Scheme) (s1 s2 : Seq) (tiny : Bool) (verdict : String) :
-    Option String :=
-  let shipped := align a false s1 s2
-  let shippedVerdict := match shipped with
-    | .ok _ => predicate S s1 s2 tiny (fields (render 0 shipped))
-    | .err => "na"
+alphabet choice as shipped (variant bit 1 unset)
+* `stop-codon-alphabet` — a sequence contains the stop `*` and every residue of both sequences is
+                      in `DetectAlphabet`'s nucleotide-compatible class, so the DNA matrix is chosen
+                      and `*` rejected although both sequences are BLOSUM62 sequences.
+
+A failure is attributed only if, in addition, (a) the model of the detected variant exhibits the very
+same failing clause on this input (the failure is a consequence of the modelled logic, not of
+something else the implementation does) and (b) the fully repaired model satisfies the whole
+predicate on the same input.  Anything else stays an unattributed `fail:<clause>`. -/
+def attributeFailure (cfg : Bool → Aligner) (fixed fa : Bool) (S : Spec.SW.Scheme) (s1 s2 : Seq) (tiny : Bool)
+    (verdict : String) : Option String :=
+  let a := cfg fa
+  let cur := align a fixed s1 s2
+  let curVerdict := match cur with
+    | .ok _ => predicate S s1 s2 tiny (fields (render 0 cur))
+    | .err => "fail:rejected-valid-pair"
     | .panic => "fail:panic"
-  if shippedVerdict != verdict then none else
-  if s1.isEmpty || s2.isEmpty then some "empty-sequence" else
+  if curVerdict != verdict then none else
+  let repaired := align (cfg true) true s1 s2
+  let repairedOk := match repaired with
+    | .ok _ => predicate S s1 s2 tiny (fields (render 3 repaired)) == "pass"
+    | _ => false
+  if verdict == "fail:rejected-valid-pair" then
+    let ntClass (c : Byte) : Bool := let u := specUpper c; Gen.alpha_seq_both.contains u || Gen.alpha_seq_nt.contains u
+    if !fa && repairedOk && (s1.contains 42 || s2.contains 42) && s1.all ntClass && s2.all ntClass
+    then some "stop-codon-alphabet" else none
+  else if fixed then none
+  else if s1.isEmpty || s2.isEmpty then
+    -- the repaired code refuses empty input with an error
+    (if repaired == Outcome.err then some "empty-sequence" else none)
+  else
   match seqToIndices a s1, seqToIndices a s2 with
   | some i1, some i2 =>
-    let repairedOk := predicate S s1 s2 tiny (fields (render 1 (align a true s1 s2))) == "pass"
     if !repairedOk then none else
     let f := fill a false (s1.zip i1) (s2.zip i2)
     let borderMax := (f.rows.headD []).any (fun c => c.val > f.best.score) ||
@@ -149,27 +167,34 @@ def handle : Handler := fun op args impl =>
     let s2 := decSeq s2
     let f := fields impl
     let v : Nat := ((lookup "v" f).bind String.toNat?).getD 0
+    let fixed := v % 2 == 1
+    let fa := v / 2 % 2 == 1
     let setScore : Option (Int × Int) :=
       if mode == "mm" then some (mt.getD den, mm.getD (-den)) else none
-    let a := configure den s1 s2 gopen gext setScore
-    let model := render v (align a (v == 1) s1 s2)
+    let cfg (alpha : Bool) := configure den s1 s2 gopen gext setScore alpha
+    let a := cfg fa
+    let model := render v (align a fixed s1 s2)
     let kind := (impl.splitOn " ").headD ""
     let inScope := DyadicScheme a s1.length s2.length && decide (a.gapextend < 0) &&
       decide (a.gapopen ≤ a.gapextend) && (mode != "mm" || (decide (a.matchS > 0) && decide (a.mismatch < 0)))
     let tiny := s1.length ≤ 3 && s2.length ≤ 3
+    -- a pair of non-empty nucleotide sequences or of non-empty protein sequences (independent of the model)
+    let validPair := !s1.isEmpty && !s2.isEmpty &&
+      ((allIn (keysOf Gen.dna_to_matrix_pos) s1 && allIn (keysOf Gen.dna_to_matrix_pos) s2) ||
+       (allIn (keysOf Gen.prot_to_matrix_pos) s1 && allIn (keysOf Gen.prot_to_matrix_pos) s2))
     let scheme := specScheme mode den a.matchS a.mismatch a.gapopen a.gapextend s1 s2
     let verdict :=
       if !inScope then "na"
-      else if kind == "err" then "na"
+      else if kind == "err" then (if validPair then "fail:rejected-valid-pair" else "na")
       else if kind == "ok" then
         match scheme with
         | none => "fail:accepted-foreign-residue"
-        | some S => predicate S s1 s2 tiny f
+        | some S => if validPair then predicate S s1 s2 tiny f else "fail:accepted-foreign-residue"
       else "fail:panic"
-    -- a failure of the shipped code is tagged with the recorded finding that explains it, if any
+    -- a failure is tagged with the recorded finding that explains it, if any
     let verdict :=
-      if verdict.startsWith "fail:" && v == 0 then
-        match scheme.bind fun S => attributeFailure a S s1 s2 tiny verdict with
+      if verdict.startsWith "fail:" && v != 3 then
+        match scheme.bind fun S => attributeFailure cfg fixed fa S s1 s2 tiny verdict with
         | some w => verdict ++ "@" ++ w
         | none => verdict
       else verdict
